@@ -81,6 +81,9 @@ func (st *State) mapUpdate(m, k, v Val, pos token.Pos) {
 	st.instantiateFor(kt)
 	st.oblige("safety", "map-nil", e.curProps, not(eq(mr, "0")), pos)
 	dom, ln, vals, vcomps := e.mapNames(mt)
+	if !st.allocConst[mr] {
+		st.written[dom] = true
+	}
 	d := st.arr(dom, "(Array Int (Array Int Bool))")
 	had := sel(sel(d, mr), kt)
 	if len(st.frames) > 0 {
@@ -102,6 +105,9 @@ func (st *State) mapDelete(m, k Val, pos token.Pos) {
 	kt := st.mapKeyTerm(mt, k)
 	st.instantiateFor(kt)
 	dom, ln, _, _ := e.mapNames(mt)
+	if !st.allocConst[mr] {
+		st.written[dom] = true
+	}
 	if len(st.frames) > 0 {
 		st.onMapDelete(st.top(), m, Val{T: mt.Key(), C: []string{kt}}, pos)
 	}
@@ -455,6 +461,13 @@ func (st *State) callOut(fr *Frame, in ssa.Instruction, kind string, sig *types.
 		}
 	}
 	st.setArr(cntName, "Int", fmt.Sprintf("(+ %s 1)", n))
+	st.written[cntName] = true
+	for _, w := range callOutExtraWrites[kind] {
+		st.written[w] = true
+	}
+	if kind == "StatsTracker.Add" {
+		st.written["G|metric"] = true
+	}
 	// kind-specific assumed contract
 	if h, ok := callOutHooks[kind]; ok {
 		h(st, fr, args, parts, pos)
@@ -538,6 +551,7 @@ func (st *State) builtin(fr *Frame, in ssa.Instruction, b *ssa.Builtin, args []V
 		st.oblige("safety", "chan-close", e.curProps, and(not(eq(ch, "0")), not(st.chanClosed(ch))), pos)
 		st.onChanClose(fr, args[0], pos)
 		st.setChanClosed(ch, "true")
+		st.written[chanClosedName] = true
 	case "panic":
 		st.oblige("safety", "panic", e.curProps, "false", pos)
 	case "print", "println":
